@@ -249,6 +249,15 @@ public:
           else O["cvs"] = llvm::toString(I, 10);
         }
       }
+      if (!E->isValueDependent() && !E->isTypeDependent() && E->getType()->isRealFloatingType() && E->isPRValue()) {
+        llvm::APFloat F(0.0);
+        if (E->EvaluateAsFloat(F, Ctx, Expr::SE_NoSideEffects)) {
+          bool lost = false;
+          F.convert(llvm::APFloat::IEEEdouble(), llvm::APFloat::rmNearestTiesToEven, &lost);
+          double dv = F.convertToDouble();
+          if (dv == dv && dv - dv == 0.0) O["fv"] = dv;   // finite values only
+        }
+      }
     }
 
     if (auto *DR = dyn_cast<DeclRefExpr>(S)) {
